@@ -42,7 +42,10 @@ Inductive jcase :=
 (* translate_result_bitstring on one bitstring (1 = '1'): Ok flat starts or exception class *)
 | JDecode (I : instance) (L : Z) (bits : list nat) (expected : result (list Z))
 (* diagonal entries: (bitstring, value of the implementation's operator), tolerance *)
-| JEnergy (I : instance) (L : Z) (P : penalties) (samples : list (list nat * Q)) (tol : Q).
+| JEnergy (I : instance) (L : Z) (P : penalties) (samples : list (list nat * Q)) (tol : Q)
+(* as JEnergy, tolerance relative to each sample's own value: |model - x| <= rel * |x| (large-slack cases, where what
+   matters are makespan weights many orders of magnitude below the largest coefficient) *)
+| JEnergyRel (I : instance) (L : Z) (P : penalties) (samples : list (list nat * Q)) (rel : Q).
 
 Definition check_case (c : jcase) : bool :=
   match c with
@@ -80,6 +83,11 @@ Definition check_case (c : jcase) : bool :=
       match hamiltonian false P ins L with
       | Err _ => false
       | Ok H => forallb (fun bx => Qle_bool (Qabs (eval_red H (state_of (rev (bits_of_nat_list (fst bx)))) - snd bx)) tol) samples
+      end
+  | JEnergyRel ins L P samples rel =>
+      match hamiltonian false P ins L with
+      | Err _ => false
+      | Ok H => forallb (fun bx => Qle_bool (Qabs (eval_red H (state_of (rev (bits_of_nat_list (fst bx)))) - snd bx)) (Qred (rel * Qabs (snd bx)))) samples
       end
   end.
 
